@@ -34,3 +34,11 @@ claim('C03', 'typestate/pairing over the CFG (acquire-release), exception-escape
       'express registers before sending and waits on the same future/node/key; timeout()/cancel()/_clean_up shapes. '
       'Does not decide deadline arithmetic, event-loop fairness or arrival order (timing).',
       'asyncio.wait_for / Future contract; pygtrie prefixes(); user validators do not raise')
+
+claim('C17', 'CFG must-pass-through on the status test with provenance of the tested reply, handler-coverage via exception-escape sets, with-region dominance, loop fall-through, call-shape checks',
+      'For all four register/unregister functions decides: `return True` only through status_code == 200 of parse_response(<reply '
+      'element of the awaited command>); all four documented command exceptions and every exception class parse_response can raise '
+      '(computed interprocedurally, incl. the nullable body) are caught; exactly one command, sent inside the semaphore; timestamp '
+      'bookkeeping only advances and (known finding) cannot be skipped; command verb/name/signing shape per front-end; '
+      'auto-registration loop and parse_response field copy complete. Does not decide clock values or real concurrency.',
+      'NFD management protocol tables (status 200, 0x65/0x66/0x67/0x68); asyncio.Semaphore semantics')
